@@ -4120,7 +4120,8 @@ namespace detail {
                                 break;
                             }
                             default:
-                                break;
+                                ec = jmespath_errc::syntax_error;
+                                return jmespath_expression{};
                         }
                         break;
 
